@@ -29,6 +29,8 @@ type FuncContract struct {
 	Requires  []Clause
 	Ensures   []Clause
 	Modifies  []Clause
+	Preserves []Clause // open-world callee: everything may change except these locations
+	HasPreserves bool
 	PanicsIff *Clause // nil: must not panic
 	PanicKind string  // "tla" (default in package tla) | "any"
 	MayPanic  bool    // callbacks may panic: panics are not constrained ("may panic")
@@ -38,6 +40,7 @@ type FuncContract struct {
 	File      string
 	Line      int
 	Uses      []Clause // lemma instantiations "use lemma(args)" at function level
+	Before    map[string][]Clause // "before <Method>: E": obligation at every call of that method/function in the body
 	Opaque    bool
 }
 
@@ -84,6 +87,7 @@ type Contracts struct {
 	FieldInvs    map[string]Clause // pkgpath.Type.field -> invariant over 'value'
 	Inline       map[string]bool   // pkgpath::funcname : small helpers inlined at call sites
 	SortAliases  map[string]SortAlias
+	Tracks       map[string]string // pkg::(Iface).Method -> ghost set of receivers it was called on
 }
 
 type SortAlias struct {
@@ -96,7 +100,7 @@ type GlobalFact struct {
 }
 
 var clauseKeywords = map[string]bool{
-	"func": true, "requires": true, "ensures": true, "modifies": true, "panics": true, "maypanic": true,
+	"func": true, "requires": true, "ensures": true, "modifies": true, "preserves": true, "track": true, "before": true, "panics": true, "maypanic": true,
 	"loop": true, "invariant": true, "decreases": true, "spec": true, "lemma": true, "induct": true,
 	"smt": true, "smtlate": true, "closed": true, "fieldinv": true, "inline": true, "sort": true, "global": true, "package": true, "ghost": true, "type": true, "trusted": true, "props": true, "use": true, "hdruse": true, "axiom": true, "pattern": true, "opaque": true,
 }
@@ -308,6 +312,42 @@ func (cs *Contracts) loadContractFile(path string, pkg string, goFile bool) erro
 				}
 				curF.Modifies = append(curF.Modifies, c)
 			}
+		case "preserves":
+			if curF == nil {
+				return fmt.Errorf("%s:%d: preserves outside func", path, l.no)
+			}
+			curF.HasPreserves = true
+			for _, part := range splitTopLevel(rest, ',') {
+				c, err := mk(part, l.no)
+				if err != nil {
+					return err
+				}
+				curF.Preserves = append(curF.Preserves, c)
+			}
+		case "before":
+			if curF == nil {
+				return fmt.Errorf("%s:%d: before outside func", path, l.no)
+			}
+			i := strings.Index(rest, ":")
+			if i < 0 {
+				return fmt.Errorf("%s:%d: before <callee>: EXPR", path, l.no)
+			}
+			c, err := mk(strings.TrimSpace(rest[i+1:]), l.no)
+			if err != nil {
+				return err
+			}
+			if curF.Before == nil {
+				curF.Before = map[string][]Clause{}
+			}
+			name := strings.TrimSpace(rest[:i])
+			curF.Before[name] = append(curF.Before[name], c)
+		case "track":
+			f := strings.Fields(rest)
+			if len(f) != 2 {
+				return fmt.Errorf("%s:%d: track (Iface).Method ghostName", path, l.no)
+			}
+			cs.Tracks[pkg+"::"+f[0]] = f[1]
+			curF, curLoop, curL = nil, nil, nil
 		case "panics":
 			if curF == nil {
 				return fmt.Errorf("%s:%d: panics outside func", path, l.no)
@@ -468,7 +508,7 @@ func splitTopLevel(s string, sep rune) []string {
 
 func newContracts() *Contracts {
 	return &Contracts{Funcs: map[string]*FuncContract{}, Immut: map[string]bool{}, Closed: map[string][]string{},
-		ClosedIfaces: map[string]bool{}, FieldInvs: map[string]Clause{}, Inline: map[string]bool{}, SortAliases: map[string]SortAlias{}}
+		ClosedIfaces: map[string]bool{}, FieldInvs: map[string]Clause{}, Inline: map[string]bool{}, SortAliases: map[string]SortAlias{}, Tracks: map[string]string{}}
 }
 
 // loadSpecDir loads *.spec files (trusted / prelude) from a directory, in name order.
